@@ -397,8 +397,8 @@ def deep(ck, tier, seed):
             continue
         for j, row in zip(shards[si], rows):
             pn, before, after, where = cases[j]
-            status, wf, unproved, escape, sem_ok, sem_bad, inv_bad = row
-            st = stats.setdefault(pn + (':synthetic' if 'synthetic' in where else ''), {'cases': 0, 'agree': 0, 'declined': 0, 'wf': 0, 'proved_path': 0, 'changed': 0, 'sem_ok': 0})
+            status, wf, unproved, escape, sem_ok, sem_bad, inv_bad = row      # `unproved` = Passes.dead_final_operands (ccp only)
+            st = stats.setdefault(pn + (':synthetic' if 'synthetic' in where else ''), {'cases': 0, 'agree': 0, 'declined': 0, 'wf': 0, 'proved_path': 0, 'dead_final_operands': 0, 'changed': 0, 'sem_ok': 0})
             st['cases'] += 1
             st['wf'] += wf
             st['sem_ok'] += sem_ok
@@ -409,6 +409,8 @@ def deep(ck, tier, seed):
                 st['agree'] += 1
                 if wf and not unproved:
                     st['proved_path'] += 1
+                if wf and unproved:          # the named exclusion of Props.C02deep_ccp_preserves: counted, not a failure
+                    st['dead_final_operands'] += 1
             elif status == 2:
                 st['declined'] += 1
             else:
@@ -434,8 +436,8 @@ def deep(ck, tier, seed):
     for pn, st in sorted(stats.items()):
         for k, v in st.items():
             ck.count('deep:%s:%s' % (pn, k), v)
-        print('C02deep: %-13s cases=%d model=real:%d declined:%d well-formed:%d on-proved-path:%d pass-changed-something:%d sanity-runs-ok:%d'
-              % (pn, st['cases'], st['agree'], st['declined'], st['wf'], st['proved_path'], st['changed'], st['sem_ok']))
+        print('C02deep: %-13s cases=%d model=real:%d declined:%d well-formed:%d under-theorem:%d excluded(dead_final_operands):%d pass-changed-something:%d sanity-runs-ok:%d'
+              % (pn, st['cases'], st['agree'], st['declined'], st['wf'], st['proved_path'], st['dead_final_operands'], st['changed'], st['sem_ok']))
     ck.extra_cov['deep_tie'] = stats
     ck.obligation('C02deep tie ran', bool(stats), '%d cases' % len(cases))
     if cases:
